@@ -32,13 +32,17 @@ REQ_CLASSES = {
     "garbage_ok": ["garbage", "now"], "closelate_ok": ["closelate", "now"], "close_ok": ["close", "now"],
     "late": ["late", "late", "late"], "frag1": ["frag1", "now"], "reset_ok": [["reset", 0.0], "now"],
     "senderr": ["now", "now"],
+    "slow_ok": [["delay", 0.8]], "frag2_ok": [["frag2", 9, 0.3]],
 }
+# classes whose script legitimately makes the library retransmit / reconnect
+RETRY_CLASSES = {"drop_ok", "exh", "garbage_ok", "closelate_ok", "close_ok", "late", "frag1", "reset_ok", "senderr"}
 ACTIONS = list(REQ_CLASSES) + ["CLOSE", "NEWLOOP", "PEERDROP"]
 
 
 def scenario(transport, ka, T, R, actions):
     framing = "rtu" if transport == "udp" else "tcp"
     by_reg, segments, cur = {}, [], []
+    reg_class = {}
     reg = 700
     for a in actions:
         if a == "CLOSE":
@@ -50,7 +54,9 @@ def scenario(transport, ka, T, R, actions):
             cur = []
         else:
             reg += 1
-            by_reg[reg] = REQ_CLASSES[a]
+            by_reg[reg] = [([x[0], x[1] * T] if (isinstance(x, list) and x[0] == "delay") else
+                            ([x[0], x[1], x[2] * T] if (isinstance(x, list) and x[0] == "frag2") else x)) for x in REQ_CLASSES[a]]
+            reg_class[reg] = a
             if a == "senderr":
                 cur.append(["arm_send_fault", errno.EHOSTUNREACH])
             cur.append(["read", reg, 2])
@@ -60,7 +66,7 @@ def scenario(transport, ka, T, R, actions):
     cur.append(["close"])
     segments.append(cur)
     return {"transport": transport, "framing": framing, "keep_alive": ka, "T": T, "R": R, "by_reg": by_reg,
-            "after": "now", "actions": list(actions), "healthy_reg": reg, "gc": True,
+            "after": "now", "actions": list(actions), "healthy_reg": reg, "gc": True, "reg_class": {str(k): v for k, v in reg_class.items()},
             "segments": [[{"start": 0.0, "steps": seg}] for seg in segments]}
 
 
@@ -115,7 +121,12 @@ def check_run(sc, run, part: Part):
                     any(e[1] in ("eof", "rxerr", "pclose", "peerdrop") for e in _between(run, a["id"], b["id"])) or \
                     any(e[1] in ("eof", "rxerr", "txerr", "pclose") for e in engine.events_of_call(run, b["id"]))
                 retried_b = len([e for e in engine.events_of_call(run, b["id"]) if e[1] == "tx"]) > 1
-                if between and not closed_in_a and not retried_b:
+                cls_b = sc.get("reg_class", {}).get(str(b["step"][1]), "ok")
+                if retried_b and cls_b not in RETRY_CLASSES and not closed_in_a:
+                    # an answer that arrived in time on a healthy kept-alive connection, yet the request was re-sent / reconnected
+                    out.append((f"C10/{tr}/keepalive-not-reused",
+                                f"{ctx}: request #{b['idx']} ({cls_b}: answered in time) was retransmitted on a kept-alive connection"))
+                if between and not closed_in_a and not (retried_b and cls_b in RETRY_CLASSES):
                     out.append((f"C10/{tr}/keepalive-not-reused",
                                 f"{ctx}: transport was re-opened between two consecutive successful requests "
                                 f"#{a['idx']} and #{b['idx']}: {[(e[0], e[1]) for e in between]}"))
